@@ -438,12 +438,35 @@ def rule_j(ctx: Ctx) -> None:
                     break
             reach = reach and can
         verdicts[meth] = (reach, reps[0], f)
+        # character data *after* a child (its tail) triggers the report on its own, not only the text before the first child
+        tail_alone = False
+        for t, lab in gs:
+            if lab != 'T' or '.tail' not in t:
+                continue
+            try:
+                e = ast.parse(t, mode='eval').body
+            except SyntaxError:
+                continue
+            atoms = bool_atoms(e)
+            tails = [a for a in atoms if '.tail' in a]
+            texts = [a for a in atoms if '.tail' not in a and 'text' in a]
+            free = [a for a in atoms if a not in tails and a not in texts]
+            for bits in itertools.product((False, True), repeat=len(free)):
+                env = dict(zip(free, bits))
+                env.update({a: False for a in texts})
+                env.update({a: True for a in tails})
+                if bool_eval(e, env):
+                    tail_alone = True
+                    break
+        ctx.ob(rule, f'XsdGroup.{meth}: character data after a child (a tail) is refused in element-only content like the text before the first child', f.loc(reps[0].ast), tail_alone,
+               '' if tail_alone else 'the report depends on the leading text only: encode({"a": 1, "#1": "junk"}) emits <r><a>1</a>junk</r> in strict mode, a document the same schema rejects',
+               key=f'XsdGroup.{meth}|cdata-tails')
     for meth, (reach, n, f) in verdicts.items():
         ctx.ob(rule, f'XsdGroup.{meth}: character data is refused for an element-only group without particles', f.loc(n.ast), reach,
                '' if reach else 'with bool(self) false the report is unreachable: for a complex type with attributes only encode({"@x": 1, "$": "foo"}) emits <e x="1">foo</e>, '
                'which the same schema rejects when it decodes it', key=f'XsdGroup.{meth}|cdata-empty-group')
     ctx.explain('C05.j: sibling agreement of XsdGroup.raw_decode / raw_encode - the guards of the "character data between child elements" report are folded for a group without '
-                'particles (bool(self) False, len(self) 0): the report stays reachable in both.')
+                'particles (bool(self) False, len(self) 0): the report stays reachable in both; and in both a test on the path to the report is true for a non-blank tail alone.')
 
 
 def rule_k(ctx: Ctx) -> None:
